@@ -109,7 +109,7 @@ func vReadmeOps() []vOp {
 		{q: `{ me { phone } }`},
 		{q: `{ me { id phone } }`},
 		{q: `{ getHumans { friends { phone name } phone } }`},
-		{q: `query($u: Boolean = true) { me { name(upper: $u) phone } }`, known: "default-var"},
+		{q: `query($u: Boolean = true) { me { name(upper: $u) phone } }`},
 		{q: `query($s: Boolean!) { me { name phone @skip(if: $s) } }`, known: "directive-var", vars: func() map[string]interface{} { return map[string]interface{}{"s": false} }},
 		{q: `{ node(id: "h1") { id } }`, noNode: true, known: "node-without-fragment"},
 		{q: `{ __typename me { phone } }`, known: "root-typename"},
